@@ -32,7 +32,7 @@ const SIGN_NEGATIVE: u8 = 0b1000_0000u8;
 const INFINITY: u8 = 0b0111_1000;
 
 // All bits needed to determine whether a decimal is an infinity.
-const INFINITY_COMBINATION: u8 = 0b0111_1110u8;
+const INFINITY_COMBINATION: u8 = 0b0111_1100u8;
 
 // Whether or not the NaN is "signaling".
 //
